@@ -270,16 +270,23 @@ def differs(case, tag=None, project=None):
     return ci.get(cid) != cm.get(cid) or bool(errs), ci.get(cid), cm.get(cid)
 
 
+SHRINK_DEADLINE = [None]     # wall-clock limit shared by all shrinks of one check run
+
+
 def shrink(case, project=None, keep_prefix=0, budget=400):
-    """Greedy line removal preserving a difference between implementation and model."""
+    """Greedy line removal preserving a difference between implementation and model.  Bounded by a step budget, by 45 s
+    per case and by the run's overall shrinking deadline: past them the case is reported as far as it has been reduced."""
     cid, lines = case
     lines = list(lines)
     n = 0
+    t_end = time.time() + 45
+    if SHRINK_DEADLINE[0] is not None:
+        t_end = min(t_end, SHRINK_DEADLINE[0])
     chunk = max(1, len(lines) // 2)
-    while chunk >= 1 and n < budget:
+    while chunk >= 1 and n < budget and time.time() < t_end:
         i = keep_prefix
         changed = False
-        while i < len(lines) and n < budget:
+        while i < len(lines) and n < budget and time.time() < t_end:
             cand = lines[:i] + lines[i + chunk:]
             n += 1
             d, _, _ = differs((cid, cand), project=project)
@@ -428,6 +435,7 @@ class Check:
         known = load_known(prop)
         known_hits = {}
         violations = []
+        SHRINK_DEADLINE[0] = time.time() + 150
         for case in mismatches[:getattr(P, 'MAX_REPORT', 25)]:
             small = shrink(case, project=project, keep_prefix=getattr(P, 'KEEP_PREFIX', 0))
             d, i_out, m_out = differs(small, project=project)
